@@ -182,10 +182,9 @@ def stepLine (s : St) (line : String) : St × String :=
     | "settle" =>
       match nat? rest "room", nat? rest "max" with
       | some room, some max =>
-        if ¬ (room = 1 ∨ room = 2) then (s, "bad-op")
+        if ¬ (room = 0 ∨ room = 1 ∨ room = 2) then (s, "bad-op")
         else
-          let w0 := s.w.commit.1
-          let (w1, n, quiet, f) := World.settle Defects.asImplemented room max w0 0 0
+          let (w1, n, quiet, f) := World.settle Defects.asImplemented room max s.w
           answer s w1 s!"ok rounds={n} quiet={if quiet then 1 else 0} f={f}"
       | _, _ => (s, "bad-op")
     | _ => (s, "bad-op")
